@@ -480,6 +480,13 @@ def run_c13(tier, seed):
     src += const_terms()
     src += F.names_terms(tier) + F.twice_terms(tier)
     src += [Add(NPow(x, 2), Mul(C(c), y)) for c in CONST_MENU] + [Pow(C(abs(c)), x) for c in CONST_MENU if c]
+    # parameters with awkward spellings (many significant digits, exponents, near-integers)
+    pool = list(CONST_MENU) + list(AWKWARD_COORDS) + [math.pi, 1 / 3, 2 ** 0.5, 1.2345678, 1.23457, 1234567.0, 12345678.0,
+                                                      0.30000000000000004, 1e-7, 1e16, 1e21, 1e22]
+    awkward = sorted(set(abs(float(c)) for c in pool if c and c == c and abs(c) != float("inf") and abs(c) < 1e300))
+    for b in awkward:
+        if b != 1:
+            src += [Exp(x, b), Log(x, b), Add(Exp(y, b), Log(x, b))]
     for t in src:
         k = A._spelling_key(t)
         if k not in seen:
